@@ -161,8 +161,11 @@ def features(case):
         if isinstance(e['table'], str):
             taken[e['table']] = taken.get(e['table'], 0) + 1
         elif e['table'] is None and not e['bases']:
-            for guess in (e['name'], e['name'].lower(), e['name'].upper()):
-                taken.setdefault(guess, 1)
+            # default table name of the entity under the dialect's convention (only used to classify generated cases and to
+            # recognise the root cause of an open finding, never by the oracle)
+            n = e['name']
+            guess = {'sqlite': n, 'postgres': n.lower(), 'mysql': n.lower(), 'oracle': n.upper()}[case['dialect']]
+            taken.setdefault(guess[:c26_gen.LIMITS[case['dialect']]], 1)
     link = {}
     for e in spec['entities']:
         for a in e['attrs']:
